@@ -105,7 +105,11 @@ def gen_op(ck: Check, pool: dict[str, Any]) -> dict[str, Any]:
     if r < 0.45:
         ck.histogram["op/mkStd"] += 1
         return {"op": "mkStd"}
-    if r < 0.49:
+    if 0.47 <= r < 0.49:
+        ck.histogram["op/rebuild"] += 1
+        root, text = rng.choice(pool["odo"])
+        return {"op": "rebuild", "text": text}
+    if r < 0.47:
         ck.histogram["op/mkExt"] += 1
         text, _ = fragment(rng)
         return {"op": "mkExt", "text": pool["simple"]}
@@ -144,6 +148,19 @@ def gen_op(ck: Check, pool: dict[str, Any]) -> dict[str, Any]:
         return {"op": "hdrdet", "hdr": hdr, "det": det, "data": data.hex(), "hdr_fields": ["H-TYPE", "H-COUNT"], "det_fields": ["D-NAME", "D-AMT"],
                 "keep": rng.random() < 0.3,
                 "_want": {"header": [repr("H"), f"Decimal('{nd}')"], "details": [[repr(nm), f"Decimal('{a}')"] for nm, a in zip(names, amts)]}}
+    if 0.70 <= r < 0.73:
+        ck.histogram["op/twofiles"] += 1
+        files = []
+        want = []
+        for tag in "AB":
+            kw, nw, n = rng.randint(1, 6), rng.randint(1, 5), rng.randint(1, 5)
+            cb = f"       01  REC-{tag}.\n           05  {tag}-KEY     PIC X({kw}).\n           05  {tag}-NUM     PIC 9({nw}).\n"
+            keys = ["".join(rng.choice("ABCDEFGHJKLMNP") for _ in range(kw)) for _ in range(n)]
+            nums = [rng.randint(0, 10 ** nw - 1) for _ in range(n)]
+            data = b"".join((k + str(v).zfill(nw)).encode("cp037") for k, v in zip(keys, nums))
+            files.append({"copybook": cb, "data": data.hex(), "fields": [f"{tag}-KEY", f"{tag}-NUM"]})
+            want.append([[repr(k), f"Decimal('{v}')"] for k, v in zip(keys, nums)])
+        return {"op": "twofiles", "files": files, "max_rows": 12, "_want": want}
     if 0.65 <= r < 0.70:
         ck.histogram["op/wbread"] += 1
         n = rng.randint(2, 4)
@@ -159,7 +176,7 @@ def gen_op(ck: Check, pool: dict[str, Any]) -> dict[str, Any]:
         for _ in range(rng.randint(1, 3)):
             reads.append([[f"v{j}-{rng.randint(0, 9)}" for j in range(n)], rng.sample(cols, rng.randint(1, n))])
         return {"op": "wbread", "doc": {"type": "object", "properties": props}, "reads": reads, "alias": rng.random() < 0.4}
-    if r < 0.75:
+    if r < 0.77:
         ck.histogram["op/load"] += 1
         return {"op": "load", "types": rng.sample(["string", "decimal", "integer", "number", "null", "boolean", "float"], 3)}
     if r < 0.92:
@@ -220,6 +237,18 @@ def explore(ck: Check, n_hist: int, max_len: int) -> None:
                         ck.fail("history-dependent:bigread", f"a record read after {o['_n_before']} others ({len(o['before']) // 2} bytes) yields "
                                 f"{str(res.get('after'))[:80]} ({res.get('after_rows')} rows); read alone it yields {str(res.get('alone'))[:80]}",
                                 {"op": {k: (v if k not in ("before",) else v[:80] + "…") for k, v in public(o).items()}})
+                if o["op"] == "rebuild":
+                    ck.oracle_evaluations += 1
+                    if not (res.get("fresh") == res.get("first") == res.get("second")) or not res.get("ext_same"):
+                        which = "first" if res.get("fresh") != res.get("first") else "second" if res.get("first") != res.get("second") else "extended"
+                        ck.fail("history-dependent:rebuild", f"one parse of a copybook, JSON Schema built from it repeatedly: the {which} build differs "
+                                + (f"from the schema of a fresh parse ({str(res.get(which))[:100]} vs {str(res.get('fresh'))[:100]})" if which != "extended"
+                                   else "vocabulary build gives two different documents for the same parse"), {"op": public(o)})
+                if o["op"] == "twofiles":
+                    ck.oracle_evaluations += 1
+                    if res.get("rows") != o["_want"] or res.get("error"):
+                        ck.fail("history-dependent:twofiles", f"two files open at once and read alternately yield {str(res.get('rows'))[:120]} "
+                                f"{res.get('error') or ''}; written {str(o['_want'])[:120]}", {"op": public(o)})
                 if o["op"] == "hdrdet":
                     ck.oracle_evaluations += 1
                     if res.get("header") != o["_want"]["header"] or res.get("details") != o["_want"]["details"]:
